@@ -6,7 +6,7 @@ CONSTANTS
   Orders <- OrdersAll
   Patterns <- PatternsTwo
   MaxAsm = 2
-  Complex = {FALSE}
+  Complex = {"real"}
   Defect = "no_groups_in_key"
   Emit = FALSE
 VIEW view
